@@ -36,25 +36,27 @@ def run_pq_impl(ops):
     outs = []
     for o in ops:
         k = o[0]
-        if k == "push":
-            q.push(o[1] if len(o[1]) != 1 else o[1][0], o[2])
-            outs.append(("unit",))
-        elif k == "pop":
-            try:
-                s, it = q.pop()
-                outs.append(("pop", sc(s), it))
-            except IndexError:
-                outs.append(("pop", None))
-        elif k == "change":
-            q.change_score(o[1], tuple(o[2]) if len(o[2]) != 1 else o[2][0])
-            outs.append(("unit",))
-        elif k == "get":
-            s = q.get_score_by_item(o[1])
-            outs.append(("get", None if s is None else sc(s)))
-        elif k == "len":
-            n = len(q)
-            assert q.is_empty() == (n == 0)
-            outs.append(("len", n))
+        try:
+            if k == "push":
+                q.push(o[1] if len(o[1]) != 1 else o[1][0], o[2])
+                outs.append(("unit",))
+            elif k == "pop":
+                try:
+                    s, it = q.pop()
+                    outs.append(("pop", sc(s), it))
+                except IndexError:
+                    outs.append(("pop", None))
+            elif k == "change":
+                q.change_score(o[1], tuple(o[2]) if len(o[2]) != 1 else o[2][0])
+                outs.append(("unit",))
+            elif k == "get":
+                s = q.get_score_by_item(o[1])
+                outs.append(("get", None if s is None else sc(s)))
+            elif k == "len":
+                n = len(q)
+                outs.append(("len", n if q.is_empty() == (n == 0) else -1 - n))
+        except Exception as e:      # any other exception is an observable (wrong) output
+            outs.append(("exc", type(e).__name__))
     return outs
 
 
@@ -82,6 +84,8 @@ def pq_oracle(ops, outs):
                 if any(_lower(s, v) for v in m.values()):
                     return False
                 del m[it]
+        elif r[0] == "exc":
+            return False
         elif k == "get":
             if r[1] != m.get(o[1]):
                 return False
@@ -121,6 +125,8 @@ def pq_out_term(r):
         return Raw("RPop None") if r[1] is None else Raw(f"RPop (Some ({term(r[1])}, {term(r[2])}))")
     if k == "get":
         return Raw("RGet None") if r[1] is None else Raw(f"RGet (Some {term(r[1])})")
+    if k == "exc" or r[1] < 0:
+        return Raw("RLen 4999%nat")      # an exception / inconsistent is_empty: rendered as an impossible output
     return Raw(f"RLen {r[1]}%nat")
 
 
